@@ -103,3 +103,45 @@ Proof.
   exists trs, t0. split; [|split; assumption].
   apply in_or_app. left. apply in_map_iff. exists (b, trs). split; [reflexivity|exact H1].
 Qed.
+
+(* ---- positions: the dispatch arguments of the main impl's helper bound are the projections of
+   the family's keys IN KEY ORDER, between the hoisted lifetimes and the other arguments; the
+   dispatch arguments of a member's helper impl are computed cell by cell from the same key
+   list (Gen.row_args is a map over keys zipped with the row).  So position i means key i on
+   both sides (seeds C06h, C16i: a main impl that regroups or drops arguments). ---- *)
+Definition key_projection (id : tbid * string) : term :=
+  projection_arg (fst (fst id)) (snd (fst id)) (snd id).
+
+Lemma key_projection_map ids :
+  map (fun id : tbid * string => let '((b, tr), a) := id in projection_arg b tr a) ids = map key_projection ids.
+Proof. apply map_ext. intros [[b tr] a]. reflexivity. Qed.
+
+Theorem helper_bound_positions idx first_blk ids p :
+  helper_bound idx first_blk ids = Some p ->
+  exists name lts others,
+    p = Node (K "Path" "") [Node (K "Seg" name) [Node (K "AAngle" "") (lts ++ map key_projection ids ++ others)]] /\
+    forallb (fun x => is_kind "Lifetime" (tlabel x)) lts = true /\
+    forallb (fun x => negb (is_kind "Lifetime" (tlabel x))) others = true.
+Proof.
+  unfold helper_bound. cbv zeta. rewrite key_projection_map.
+  destruct first_blk as [lb [|g [|tr [|self [|wh [|items [|]]]]]]]; try discriminate.
+  match goal with |- match ?path with _ => _ end = _ -> _ => destruct path as [[lp segs]|] end; [|discriminate].
+  destruct (split_last segs) as [[init [ls lks]]|]; [|discriminate].
+  intro H. inversion H; subst p. clear H.
+  eexists _, _, _. split; [reflexivity|]. split.
+  - apply forallb_forall. intros x Hx. apply filter_In in Hx. destruct Hx as [_ Hx]. exact Hx.
+  - apply forallb_forall. intros x Hx. apply filter_In in Hx. destruct Hx as [_ Hx]. exact Hx.
+Qed.
+
+Theorem row_args_positions s keys row i k c :
+  nth_error keys i = Some k -> nth_error row i = Some c ->
+  nth_error (row_args s keys row) i =
+  Some (match c with
+        | Some payload => Node (K "GType" "") [payload]
+        | None => let '((bounded, tr), a) := k in projection_arg (fwd s bounded) (fwd s (strip_bindings tr)) a
+        end).
+Proof.
+  unfold row_args. revert row i. induction keys as [|k0 keys IH]; intros [|c0 row] [|i] Hk Hc; try discriminate.
+  - cbn in *. inversion Hk; inversion Hc; subst. reflexivity.
+  - cbn [combine map nth_error] in *. apply IH; assumption.
+Qed.
